@@ -243,6 +243,9 @@ func RunRange(cfg *Config, fn RunFn, from, to, maxShrink int, wall time.Duration
 			dec := t.Decisions()
 			v := &Violation{Property: cfg.Property, Signature: o.Sig, Detail: o.Detail, Seed: cfg.Seed, Run: i,
 				Params: cfg.Params, Decisions: dec, OrigLen: len(dec), Scenario: o.Scenario, Trace: tail(o.Trace, 120), Count: 1, symptom: symptomOf(o)}
+			if sc := cfg.Int("shrinkcap", 0); sc > 0 && sc < maxShrink {
+				maxShrink = sc // harnesses whose runs are expensive (child processes) cap the shrink budget
+			}
 			if maxShrink > 0 {
 				shrinkViolation(v, fn, cfg, maxShrink)
 			}
